@@ -50,15 +50,25 @@ def run(tier, seed):
         C = dict(fssh=mudslide.TrajectorySH, cumulative=mudslide.TrajectoryCum, ehrenfest=mudslide.Ehrenfest, afssh=mudslide.AugmentedFSSH, es=EvenSamplingTrajectory)[cls]
         shared_zl = [rng.random() for _ in range(6)] if cls in ("fssh", "cumulative", "afssh") and it % 2 == 0 else None
         zl_before = list(shared_zl) if shared_zl is not None else None
+        gkind = ["const", "normal", "boltzmann"][(it + it // 5) % 3] if cls != "es" else "const"
+        gseed2 = rng.randrange(2 ** 31)
+        def gen():
+            from mudslide.batch import TrajGenNormal, TrajGenBoltzmann
+            if gkind == "normal": return TrajGenNormal([x0], [k], 0, 2.0, seed=sd, seed_traj=gseed2)
+            if gkind == "boltzmann": return TrajGenBoltzmann(np.array([x0]), M[mname]().mass, 3.0e5 * k * k / 100.0, 0, scale=False, seed=sd, momentum_seed=gseed2)
+            return TrajGenConst([x0], [k], 0, seed=sd)
         def batch(nsamp):
+            # the process-global generators must not matter: reseed them differently before every run
+            np.random.seed(rng.randrange(2 ** 31)); random.seed(rng.randrange(2 ** 31))
             kw = dict(samples=nsamp, dt=20.0, bounds=[-bound, bound], max_steps=600, tracemanager=TraceManager())
             if shared_zl is not None: kw["zeta_list"] = shared_zl       # one list object handed to every member and to every run
             if cls == "es": kw.update(spawn_stack=[3, 2], quadrature="gl", mcsamples=2); kw["samples"] = 1
-            b = BatchedTraj(M[mname](), TrajGenConst([x0], [k], 0, seed=sd), C, **kw)
+            b = BatchedTraj(M[mname](), gen(), C, **kw)
             r = b.compute()
             return [(trace_dump(t), [dict(h) for h in t.hops], {e: list(v) for e, v in t.events.items()}, t.weight) for t in r.traces]
         r1, r2 = batch(ns), batch(ns)
-        info = dict(cls=cls, model=mname, seed=sd, samples=ns)
+        info = dict(cls=cls, model=mname, seed=sd, samples=ns, generator=gkind)
+        res.count("generator/" + gkind)
         same = len(r1) == len(r2) and all(snaps_equal(a[0], b[0]) and a[1] == b[1] and repr(a[2]) == repr(b[2]) and a[3] == b[3] for a, b in zip(r1, r2))
         if not same:
             bad.append(dict(failed="repeating a run with the same seeds yields identical snapshots and events", case=info))
@@ -75,6 +85,26 @@ def run(tier, seed):
             if not all(snaps_equal(a[0], b[0]) and a[1] == b[1] for a, b in zip(r1, r3[:ns])):
                 bad.append(dict(failed="trajectory i is unaffected by how many other trajectories are requested", case=info))
             res.count("batch-size-independence")
+    # (a') classes that draw a hop target from their stream: 3-state models started on the middle state (two open channels)
+    for it in range(max(4, nrep // 2)):
+        mname, x0, k, bound = [("models", -6.0, 12.0, 9.0), ("super", -5.0, 9.0, 6.0), ("modelx", -7.0, 12.0, 9.0)][it % 3]
+        cls = ["cumulative", "es-leaf"][it % 2]; sd = rng.randrange(2 ** 31)
+        def one():
+            np.random.seed(rng.randrange(2 ** 31)); random.seed(rng.randrange(2 ** 31))
+            kw = dict(dt=15.0, bounds=[-bound, bound], max_steps=500, seed_sequence=sd)
+            if cls == "es-leaf": kw.update(spawn_stack=None, queue=queue.Queue())
+            C = mudslide.TrajectoryCum if cls == "cumulative" else EvenSamplingTrajectory
+            outs = []
+            for j in range(6):
+                kw["seed_sequence"] = np.random.SeedSequence(sd, spawn_key=(j,))
+                t = C(M[mname](), [x0], [k], 1, **kw); lg = t.simulate()
+                outs.append((trace_dump(lg), [dict(h) for h in lg.hops]))
+            return outs
+        a, b = one(), one()
+        nh = sum(len(o[1]) for o in a)
+        res.count("repeat-multichannel/" + cls); res.count("repeat-multichannel-hops", nh); res.case(("rep3", cls, mname, sd), nh > 0)
+        if not all(snaps_equal(x[0], y[0]) and x[1] == y[1] for x, y in zip(a, b)):
+            bad.append(dict(failed="repeating a run with the same seeds yields identical snapshots and events (class %s on a 3-state model started on the middle state; process-global generators reseeded in between)" % cls, case=dict(cls=cls, model=mname, seed=sd)))
     # (c) seed keys: generator spawn + even-sampling clones
     for it in range(nrep * 3):
         key = [rng.randrange(5) for _ in range(rng.randint(0, 3))]
@@ -158,6 +188,6 @@ def run(tier, seed):
         res.violation("implementation differs from Model/Rng.v (theorems no longer cover the code)",
                       dict(kind="correspondence", correspondence="Run/R19.chk12k/chk12d: spawn keys and threshold order vs numpy SeedSequence / draw_new_zeta", failing_inputs=corr, no_failing_input_found=True))
     return finish(res, thm,
-                  rule="every batch run twice with the same seeds (5 classes incl. even-sampling trees) and compared bit-for-bit; batch of n vs n+k; SeedSequence.spawn keys for random parents and successive spawn counts; "
+                  rule="every batch run twice with the same seeds (5 classes incl. even-sampling trees; constant, normal and Boltzmann generators; numpy/python global generators reseeded differently before each run) and compared bit-for-bit; cumulative and stack-less even-sampling runs on 3-state models started on the middle state; batch of n vs n+k; SeedSequence.spawn keys for random parents and successive spawn counts; "
                        "even-sampling clone keys; draw_new_zeta order for random zeta_lists against a twin generator; clones of 5 classes at random steps continued alongside the original; non-trivial = distinct case",
                   assumptions=["bit-for-bit repeatability of numpy/LAPACK within one process", "clone isolation is observed on the attributes that are arrays/lists/dicts"])
